@@ -1,4 +1,14 @@
-# import-only stub (parallel_numpy_rng is absent; never called on verified paths)
+# stand-in for parallel_numpy_rng (absent from this sandbox).  The real MTGenerator produces a stream that does not depend on
+# nthread; this stand-in keeps that contract: draws come from one numpy Generator over the given bit generator, in call order.
+import numpy as np
+
+
 class MTGenerator:
-    def __init__(self, *a, **k):
-        raise NotImplementedError('parallel_numpy_rng stub')
+    def __init__(self, bitgen=None, *a, **k):
+        self._g = np.random.Generator(bitgen if bitgen is not None else np.random.PCG64())
+
+    def random(self, size=None, nthread=None, dtype=np.float64, **k):
+        return self._g.random(size=size, dtype=dtype)
+
+    def standard_normal(self, size=None, nthread=None, dtype=np.float64, **k):
+        return self._g.standard_normal(size=size, dtype=dtype)
